@@ -381,7 +381,7 @@ def check_C06(tier, ev):
                        "exhaustive within MaxOps operations and MaxDepth caches; random traces beyond that",
                        "hook: cargo feature `verif` exposes the private write-cache through pass-through wrappers"]
     if tier == "quick":
-        runs = [("mc/MC_Overlay_quick.cfg", 600)]
+        runs = [("mc/MC_Overlay_quick.cfg", 600), ("mc/MC_Overlay_long.cfg", 900)]
         ntr, ltr = 30, 150
     else:
         runs = [("mc/MC_Overlay_quick.cfg", 600), ("mc/MC_Overlay_thorough.cfg", 3000), ("mc/MC_Overlay_deep.cfg", 3000)]
@@ -679,7 +679,7 @@ CHAIN = {
                 what="call chains user->A->B->A, contracts calling themselves, instantiation with funds; funds none / one / two "
                      "denominations / exactly owned / more than owned; block changed by set_block / update_block before the call; "
                      "compared: sender, own address, block, funds told, balances visible to the callee, no invocation on overdraw"),
-    "C08": dict(cfgs=["private", "percode"], focus="reads.cs,post.cs,views,reads.bank,reads.reg,post.bank,post.reg,ok,raw,names,seq",
+    "C08": dict(cfgs=["private", "privcase", "percode"], focus="reads.cs,post.cs,views,reads.bank,reads.reg,post.bank,post.reg,ok,raw,names,seq",
                 need=["two_or_more_invocations", "ok"],
                 what="three contracts (two from the same code) writing/removing keys that are instantiated with adversarial bytes "
                      "(other modules' and contracts' raw prefixes), nested and top-level, two transactions; compared: every "
